@@ -172,6 +172,40 @@ def run(rep):
                       f'tokens to the child: if the child stopped reading early its output is not the whole program',
                       ok_detail='dominated by a branch on the write_all outcome')
     rep.floor('uses of captured formatter stdout', n_uses, 1)
+    # ---- d: the child's stdin is closed before it is waited for ----------------------------------------------------------------
+    # a formatter reads its input to end-of-file: if the handle taken out of `child.stdin` is still alive when wait() / wait_with_output()
+    # is called, the child never sees EOF and the call hangs.  (A handle left inside `child.stdin` is closed by wait_with_output itself.)
+    n_d = 0
+    for fn, body in views:
+        waits = [b for b, t in body.calls() if cname(t) in ('std::process::Child::wait_with_output', 'std::process::Child::wait')]
+        holders = [i for i, ty in enumerate(body.locals) if 'ChildStdin' in ty and not ty.startswith(('&', '*')) and 'process::Child' not in ty.replace('ChildStdin', '')]
+        for L in holders:
+            gens, kills = set(), set()
+            for b, blk in enumerate(body.blocks):
+                for st in blk['stmts']:
+                    if st['lhs']['l'] == L and not st['lhs']['p']:
+                        gens.add(b)
+                    if any(o.get('move', {}).get('l') == L for o in st['rv'].get('ops', []) if isinstance(o, dict)):
+                        kills.add(b)
+                t = blk['term']
+                if t['k'] == 'call':
+                    if t['dest']['l'] == L and not t['dest']['p']:
+                        gens.add(t['target'] if t.get('target') is not None else b)
+                    if any(isinstance(a, dict) and a.get('move', {}).get('l') == L for a in t['args']):
+                        kills.add(b)
+                if t['k'] == 'drop' and t['place']['l'] == L:
+                    kills.add(b)
+            for g in sorted(gens):
+                n_d += 1
+                if g in kills:
+                    continue
+                succ = [x for x in body.succ(g)] if hasattr(body, 'succ') else None
+                r = body.reachable_from([g], avoid=kills)
+                open_at = [w for w in waits if w in r]
+                rep.check(not open_at, 'C19.d.stdin-closed', f'stdin-open-at-wait:{fn}', body.where(open_at[0] if open_at else g),
+                          f'a handle to the child\'s stdin (local _{L}: {body.locals[L]}) taken in {fn} can still be alive when the child is waited for: the formatter never sees '
+                          f'end-of-file on its input, so the call hangs', ok_detail=f'_{L} is dropped / moved before every wait')
+    rep.floor('holders of the child stdin handle', n_d, 1)
     # ---- e: returned text is an identity image of the tokens or of the captured stdout -----------------------------
     n_e = 0
     for fn in sorted(F):
